@@ -5,6 +5,7 @@ GROUPS = [
     dict(name='trylock', tu='mutex.c', harness='h_trylock', mode='D', enforce='fiber_mutex_trylock', replace=PARK, functions=['fiber_mutex_trylock']),
     dict(name='unlock_internal', tu='mutex.c', harness='h_unlock_internal', mode='D', enforce='fiber_mutex_unlock_internal', replace=PARK, functions=['fiber_mutex_unlock_internal']),
     dict(name='unlock', tu='mutex.c', harness='h_unlock', mode='D', enforce='fiber_mutex_unlock', replace=PARK + ['fiber_mutex_unlock_internal'], functions=['fiber_mutex_unlock'], replace_if_called=['fiber_manager_yield']),
+    dict(name='init', tu='mutex.c', harness='h_init', mode='H', functions=['fiber_mutex_init'], unwind=3, exact_unwind=True),
     dict(name='lemmas', tu='lemmas.c', kind='lemmas', harness='', no_native='pure lemma'),
 ]
 ASSUMPTIONS = [
